@@ -17,11 +17,21 @@ package crypto
 //@   ensures err == nil ==> len(sig) == 64 && seq(sig) == ed25519_sign(seq(key), seq(data))
 //@   ensures err != nil ==> sig == nil
 
+// The accessory's session: it encrypts with the Control-Read key and decrypts with the Control-Write key, both
+// HKDF-SHA-512 of the pair-verify shared secret with salt "Control-Salt"; both frame counters start at zero.
+// sskey(c) (the shared secret a session was derived from) is specification-only state of the new object.
 //@ func NewSecureSessionFromSharedKey(sharedKey) (c, err)
-//@   trusted
-//@   fresh c
-//@   pure
-//@   ensures err == nil ==> c != nil && ref(c) > 0 && sskey(c) == seq(sharedKey)
+//@   ghostinit sskey(c) = seq(sharedKey)
+//@   ensures ok: err == nil && c != nil && ref(c) > 0 && fresh(c) && typeis(c, "*github.com/brutella/hc/crypto.secureSession")
+//@   ensures link: sskey(c) == seq(sharedKey)
+//@   ensures keys: seq(asptr(c, "*github.com/brutella/hc/crypto.secureSession").encryptKey) == hkdf(seq(sharedKey), seq("Control-Salt"), seq("Control-Read-Encryption-Key")) && seq(asptr(c, "*github.com/brutella/hc/crypto.secureSession").decryptKey) == hkdf(seq(sharedKey), seq("Control-Salt"), seq("Control-Write-Encryption-Key"))
+//@   ensures counters: asptr(c, "*github.com/brutella/hc/crypto.secureSession").encryptCount == 0 && asptr(c, "*github.com/brutella/hc/crypto.secureSession").decryptCount == 0
+
+// the controller's side (used by tests): the two labels swapped
+//@ func NewSecureClientSessionFromSharedKey(sharedKey) (c, err)
+//@   ensures ok: err == nil && c != nil && ref(c) > 0 && fresh(c) && typeis(c, "*github.com/brutella/hc/crypto.secureSession")
+//@   ensures keys: seq(asptr(c, "*github.com/brutella/hc/crypto.secureSession").encryptKey) == hkdf(seq(sharedKey), seq("Control-Salt"), seq("Control-Write-Encryption-Key")) && seq(asptr(c, "*github.com/brutella/hc/crypto.secureSession").decryptKey) == hkdf(seq(sharedKey), seq("Control-Salt"), seq("Control-Read-Encryption-Key"))
+//@   ensures counters: asptr(c, "*github.com/brutella/hc/crypto.secureSession").encryptCount == 0 && asptr(c, "*github.com/brutella/hc/crypto.secureSession").decryptCount == 0
 
 // ---------------------------------------------------------------- framing (C06)
 // packetsFromBytes cuts the whole stream into 1024-byte packets, the last one shorter (and absent when the length is a
@@ -55,9 +65,30 @@ package crypto
 //@   ensures ok: err == nil && out != nil
 //@   ensures wire: stream(out) == enc_pre(old(seq(s.encryptKey)), old(s.encryptCount), old(stream(r)), (len(old(stream(r))) + 1023) / 1024)
 //@   ensures count: s.encryptCount == old(s.encryptCount) + (len(old(stream(r))) + 1023) / 1024
+//@   ensures wireFront: stream(out) == enc_suf(old(seq(s.encryptKey)), old(s.encryptCount), old(stream(r)), 0, (len(old(stream(r))) + 1023) / 1024)
 //@   loop 0
+//@     invariant front: cat(stream(addr(buf)), enc_suf(old(seq(s.encryptKey)), old(s.encryptCount), old(stream(r)), loopidx, len(packets))) == enc_suf(old(seq(s.encryptKey)), old(s.encryptCount), old(stream(r)), 0, len(packets)) && suf_mark(old(seq(s.encryptKey)), old(s.encryptCount), old(stream(r)), loopidx, len(packets))
 //@     invariant idx: 0 <= loopidx && loopidx <= len(packets) && len(packets) == (len(old(stream(r))) + 1023) / 1024
 //@     invariant chunks: forall(k, 0, len(packets), packets[k].length == len(packets[k].value) && seq(packets[k].value) == sub(old(stream(r)), 1024 * k, ite(1024 * k + 1024 <= len(old(stream(r))), 1024 * k + 1024, len(old(stream(r))))))
 //@     invariant own: forall(k, 0, len(packets), ref(packets[k].value) != ref(s) && !(existed(packets[k].value))) && (cap(packets) == 0 || (ref(packets) != ref(s) && !existed(packets)))
 //@     invariant key: seq(s.encryptKey) == old(seq(s.encryptKey)) && s.encryptCount == old(s.encryptCount) + loopidx
 //@     invariant wire: stream(addr(buf)) == enc_pre(old(seq(s.encryptKey)), old(s.encryptCount), old(stream(r)), loopidx) && enc_mark(old(seq(s.encryptKey)), old(s.encryptCount), old(stream(r)), loopidx)
+
+//@ spec func rtP() seq
+// Decrypt (C05): under the ideal-AEAD assumption for the session's read key (hap.spec, aeadIdeal), whatever is released is
+// exactly the concatenation of the peer's payload chunks old(decryptCount) .. decryptCount-1, in order; any frame that is
+// not the peer's next frame makes the call fail and nothing is released.
+//@ func (s *secureSession) Decrypt(r) (out, err)
+//@   requires s != nil && r != nil && seq(s.decryptKey) == dkey()
+//@   assume nowrap
+//@   modifies s.decryptCount, stream(r)
+//@   ensures genuine: err == nil ==> out != nil && stream(out) == pcat(old(s.decryptCount), s.decryptCount) && s.decryptCount >= old(s.decryptCount)
+//@   ensures nothing: err != nil ==> out == nil
+//@   ensures key: seq(s.decryptKey) == dkey()
+//   round trip (C06): if the reader holds the encoding of any payload rtP() (an arbitrary constant) under this key and
+//   counter, the whole payload comes out and the counter advances by its number of frames
+//@   ensures roundtrip: old(stream(r)) == enc_suf(dkey(), old(s.decryptCount), rtP(), 0, (len(rtP()) + 1023) / 1024) ==> err == nil && stream(out) == rtP() && s.decryptCount == old(s.decryptCount) + (len(rtP()) + 1023) / 1024
+//@   loop 0
+//@     invariant rt: old(stream(r)) == enc_suf(dkey(), old(s.decryptCount), rtP(), 0, (len(rtP()) + 1023) / 1024) ==> s.decryptCount - old(s.decryptCount) <= (len(rtP()) + 1023) / 1024 && stream(r) == enc_suf(dkey(), old(s.decryptCount), rtP(), s.decryptCount - old(s.decryptCount), (len(rtP()) + 1023) / 1024) && stream(addr(buf)) == sub(rtP(), 0, ite(1024 * (s.decryptCount - old(s.decryptCount)) <= len(rtP()), 1024 * (s.decryptCount - old(s.decryptCount)), len(rtP()))) && suf_mark(dkey(), old(s.decryptCount), rtP(), s.decryptCount - old(s.decryptCount), (len(rtP()) + 1023) / 1024)
+//@     invariant key: seq(s.decryptKey) == dkey() && s.decryptCount >= old(s.decryptCount)
+//@     invariant buf: stream(addr(buf)) == pcat(old(s.decryptCount), s.decryptCount) && pmark(old(s.decryptCount), s.decryptCount)
